@@ -141,6 +141,47 @@ def rule_is_solved(ctx: Ctx, prog: Program) -> None:
     ctx.floor("R-SOLVED:paths", len(res), 1)
 
 
+def _root_forwarded(prog: Program, fn: FuncInfo, src: Any) -> bool:
+    """`fn` (reset) hands one of its own parameters to cp_init as the root domains.  That is as good as np.array(problem.shr_domains_lst) inside
+    fn when EVERY caller of fn in the package passes, at that position, a fresh copy of the list taken in the calling function itself
+    (a local bound once to np.array(<x>.shr_domains_lst), or that call written in place): the copy is then taken once per solve / optimize
+    call, after split() and the model API have written the list.  A copy kept on an object (self.x) does not qualify."""
+    if not (isinstance(src, View) and not src.idx and src.root in fn.params):
+        return False
+    pos = fn.params.index(src.root)
+
+    def fresh(e: ast.expr) -> bool:
+        return isinstance(e, ast.Call) and ast.unparse(e.func) in ("np.array", "numpy.array", "np.asarray", "numpy.asarray") and len(e.args) >= 1 \
+            and isinstance(e.args[0], ast.Attribute) and e.args[0].attr == "shr_domains_lst"
+    n_sites = 0
+    for g in prog.all_functions():
+        if g is fn:
+            continue
+        for c in ast.walk(g.node):
+            if not (isinstance(c, ast.Call) and isinstance(c.func, ast.Name) and c.func.id == fn.name):
+                continue
+            r_ = prog.resolve(g.module, fn.name)
+            if not (r_ and r_[0] == "func" and r_[1].fq == fn.fq):
+                continue
+            n_sites += 1
+            if any(isinstance(a_, ast.Starred) for a_ in c.args) or len(c.args) <= pos:
+                kw = [k.value for k in c.keywords if k.arg == src.root]
+                if len(kw) != 1:
+                    return False
+                arg = kw[0]
+            else:
+                arg = c.args[pos]
+            if fresh(arg):
+                continue
+            if not isinstance(arg, ast.Name) or arg.id in g.params:
+                return False
+            defs = [a_ for a_ in ast.walk(g.node) if isinstance(a_, (ast.Assign, ast.AnnAssign, ast.AugAssign, ast.For, ast.NamedExpr))
+                    and any(isinstance(x_, ast.Name) and x_.id == arg.id and isinstance(x_.ctx, ast.Store) for t_ in (a_.targets if isinstance(a_, ast.Assign) else [a_.target]) for x_ in ast.walk(t_))]
+            if len(defs) != 1 or not isinstance(defs[0], (ast.Assign, ast.AnnAssign)) or defs[0].value is None or not fresh(defs[0].value):
+                return False
+    return n_sites >= 1
+
+
 def rule_reset(ctx: Ctx, prog: Program) -> None:
     ctx.rule("R-ANNOUNCE")
     fn = prog.func(f"{prog.package}.{BT_MOD}", "reset")
@@ -166,6 +207,8 @@ def rule_reset(ctx: Ctx, prog: Program) -> None:
                 org = it.allocs.get(src.root) if isinstance(src, View) else None
                 if org and org[0] == "alloc" and org[2] and _root_is(org[2][0], "shr_domains_lst"):
                     okk = True
+                elif _root_forwarded(prog, fn, src):
+                    okk = True  # every caller hands over a fresh np.array(problem.shr_domains_lst) taken in the calling function
         if not okk:
             ctx.violation("R-ANNOUNCE", fn.path, "reset", "cp_init", fn.loc(),
                           "reset must re-initialise all stacks from the problem's initial shared domains (cp_init(stack, flags, updates, top, array(problem.shr_domains_lst)))")
@@ -281,7 +324,9 @@ def rule_tighten(ctx: Ctx, prog: Program) -> None:
                 ctx.ok("R-TIGHTEN", f"{worker}: solve -> reset -> tighten")
                 ra = [as_view(x) for x in evs[resets[0]].args]
                 names = ["problem", "shr_domains_stack", "not_entailed_propagators_stack", "dom_update_stack", "stacks_top", "triggered_propagators"]
-                if len(ra) != 6 or not all(_root_is(a, n) for a, n in zip(ra, names)):
+                rfn = prog.func(f"{prog.package}.{BT_MOD}", "reset")
+                first_ok = len(ra) == 6 and (_root_is(ra[0], "problem") or (bool(rfn.params) and _root_forwarded(prog, rfn, View(rfn.params[0], ()))))
+                if len(ra) != 6 or not first_ok or not all(_root_is(a, n) for a, n in zip(ra[1:], names[1:])):
                     ctx.violation("R-TIGHTEN", fn.path, where, "reset-args", f"{fn.path}:{evs[resets[0]].line}",
                                   f"{worker}: reset is not applied to this solver's stacks and queue ({[repr(x) for x in ra]})")
                 else:
@@ -407,6 +452,8 @@ def rule_domain_source(ctx: Ctx, prog: Program) -> None:
                 src = as_view(e.args[-1]) if e.args else None
                 org = it.allocs.get(src.root) if isinstance(src, View) else None
                 okk = bool(org and org[0] == "alloc" and org[1] in ("numpy.array", "numpy.asarray") and org[2] and _root_is(org[2][0], "shr_domains_lst"))
+                if not okk and name == "reset" and _root_forwarded(prog, fn, src):
+                    okk = True
                 if okk:
                     ctx.ok("R-DOMAIN-SOURCE", f"{name}: cp_init(..., np.array(problem.shr_domains_lst))")
                 else:
